@@ -58,6 +58,7 @@ func c14Run(u *vfUnit) {
 			store = vfNewStore()
 			// the objects honour the context of the request that opened them: it stays live until the handle is closed
 			store.CtxBoundObjects = true
+			store.TransferErrorPoisons = true // ... and take a transfer-error notification to heart
 			// an attribute change through a handle takes a while: reads and writes on that handle go on beside it
 			store.CmdDelay = func(method string) {
 				if method == "Setstat" {
